@@ -159,10 +159,10 @@ def acts_cases(tier, rng):
     for i, w in enumerate(W_SCRIPTS):
         a = A_SCRIPTS[i % len(A_SCRIPTS)]
         for st in STACKS:
-            for form in ("gen", "call"):
+            for form in ("gen", "call", "iter"):
                 yield "scripted", [["acts", w, a, form], st]
     for _ in range(150 if tier == "quick" else 3000):
-        yield "scripted-random", [["acts", rand_w_script(rng), rand_a_script(rng), rng.choice(["gen", "call"])], rng.choice(STACKS)]
+        yield "scripted-random", [["acts", rand_w_script(rng), rand_a_script(rng), rng.choice(["gen", "call", "iter"])], rng.choice(STACKS)]
 
 
 def cases(tier, rng):
@@ -219,8 +219,21 @@ def scripted_wsgi(script, form, counter):
                     yield act[1]
                 else:
                     perform(act, start_response)
+        if form == "iter":       # an iterable that is not a generator and has no close() (map(), itertools.chain(), a class)
+            return PlainIterator(g())
         return g()
     return app
+
+
+class PlainIterator:
+    def __init__(self, g):
+        self._g = g
+
+    def __iter__(self):
+        return self
+
+    def __next__(self):
+        return next(self._g)
 
 
 def scripted_asgi(script, counter):
